@@ -749,6 +749,51 @@ def gen_lzma2_limits(rng, stats=None):
                 expect=("end", plain), variant="lzma2-limits:" + kind, valid_len=len(out))
 
 
+def far_symbols(rng, w, reach, stats=None):
+    """Fill writer `w` with at least `reach` + a few bytes (long matches, cheap) and then emit matches / reps whose distance
+    is close to `reach` and close to everything produced so far: data that really USES a dictionary of more than `reach`
+    bytes (a decoder that works with a smaller dictionary than declared must fail on it)."""
+    stats = stats if stats is not None else {}
+    w.literal(rng.getrandbits(8))
+    for _ in range(rng.randrange(1, 40)):
+        w.literal(rng.getrandbits(8))
+    random_symbols(rng, w, reach + rng.randrange(1, 600), stats, lit_bias=0.05, long_bias=True)
+    full = w.full()
+    for d in (reach, reach - 1, full - 1, rng.randrange(reach - 1, full), reach + 1 if reach + 1 < full else reach):
+        d = min(d, full - 1)
+        w.match(d, pick_len(rng, 273))
+        if rng.random() < 0.5:
+            w.literal(rng.getrandbits(8))
+        if rng.random() < 0.5:
+            w.rep(0, pick_len(rng, 273))
+        full = w.full()
+    stats["far-match"] = stats.get("far-match", 0) + 1
+
+
+def gen_far_lzma2(rng, dict_size, reach, stats=None):
+    """one-chunk-per-2^21 LZMA2 stream using distances > reach; -> (stream, plain)"""
+    lc, lp, pb = pick_props(rng)
+    w = LzmaWriter(lc, lp, pb, dict_size, b"")
+    w.new_rc()
+    far_symbols(rng, w, reach, stats)
+    w.rc.flush()
+    body = bytes(w.rc.out)
+    assert len(body) <= 1 << 16 and len(w.plain) <= 1 << 21
+    out = lzma2_chunk_header(0xE0, len(w.plain), len(body), props_byte(lc, lp, pb)) + body + b"\x00"
+    return out, bytes(w.plain)
+
+
+def gen_far_lzma1(rng, dict_size, reach, stats=None, eopm=True):
+    """raw LZMA1 stream using distances > reach; -> (props triple, stream, plain)"""
+    lc, lp, pb = pick_props(rng)
+    w = LzmaWriter(lc, lp, pb, dict_size, b"")
+    far_symbols(rng, w, reach, stats)
+    if eopm:
+        w.eopm()
+    w.rc.flush()
+    return (lc, lp, pb), bytes(w.rc.out), bytes(w.plain)
+
+
 # ------------------------------------------------------------------------------------------------
 # byte-level mutation
 # ------------------------------------------------------------------------------------------------
